@@ -238,6 +238,19 @@ CLAIMS["C10"] = (
     "Namespace.Verify's other checks (users, charset, allow-lists): 'accepted configurations load' is decided for the layout kernel only.",
     "DESIGN.md section 4, C10")
 
+CLAIMS["C13"] = (
+    "AppendBinaryValue (bit-vector semantics, every input): an integer value of any Go integer kind is written as the low 1 / 2 / 4 / 8 "
+    "bytes, little-endian, of its 64-bit two's-complement value for TINY / SHORT,YEAR / LONG,INT24 / LONGLONG columns; a []byte or string "
+    "value for a string-like column type (the MySQL list including ENUM and SET -- fixed in /repo -- JSON, BIT, the BLOBs, NEWDECIMAL) is "
+    "written with a valid length prefix: total length = prefix + payload, the prefix decodes (lenenc) to the payload length and is never "
+    "the NULL marker 0xfb; or an error is returned; on success the bytes already in the row are unchanged. AppendUint16 / AppendUint32 "
+    "append the little-endian bytes.",
+    "NOT decided: that the payload bytes after the prefix equal the value (quantified obligation through two appends in bit-vector mode does "
+    "not discharge within the budget and is not claimed); floats, decimals, DATE / DATETIME / TIMESTAMP / TIME encodings (strconv, time, "
+    "decimal libraries; helpers have assumed frame-only contracts); RowData.ParseText; BuildBinaryResultset's NULL bitmap; that an integer "
+    "fits the declared column width (ParseText parses every width with bitSize 64).",
+    "DESIGN.md section 4, C13")
+
 NA = {
  "C02": "not applicable to contract-based verification here: the oracle is the result of executing SQL on data (what one MySQL holding all shards would return); no contract within reach expresses an SQL execution semantics, and the rewriter is ~3k lines of visitors over TiDB AST types (DESIGN.md section 5)",
  "C06": "not applicable: the property compares a token pre-check with the decision of the yacc-generated parser; the specification is that parser (tables + hand-written lexer), which is outside the verifier's subset (DESIGN.md section 5)",
